@@ -925,5 +925,15 @@ def flav(ctx, flavours=FLAVOURS):
                         first = ty['p'].split('::')[0]
                         if first in FLAVOURS and first != fl:
                             bad.add(ty['p'])
-            out.append(Obl('FLAV', q, b['span'], 'references only %s:: and error::' % fl, not bad, 'foreign flavour paths: ' + ', '.join(sorted(bad)[:4]) if bad else 'closed'))
+            # the identity of a flavour's own type is flavour-specific text / data: `type_name::<Graph<..>>()` reads
+            # "gdsl::digraph::Graph<..>" in one sibling and "gdsl::sync_digraph::Graph<..>" in the other although the two
+            # functions are the same token for token
+            tyid = []
+            for bi, t in calls_in(b):
+                if t['callee'] in ('std::any::type_name', 'std::any::type_name_of_val', 'std::any::TypeId::of', 'std::any::Any::type_id'):
+                    loc = sorted({ty['p'] for g in t.get('gargs', []) for ty in F.ty_walk(g) if ty['k'] == 'adt' and ty.get('local') and ty['p'].split('::')[0] in FLAVOURS})
+                    if loc:
+                        tyid.append('%s of %s at %s' % (t['callee'].split('::')[-1], loc[0], t['sp']))
+            out.append(Obl('FLAV', q, b['span'], 'references only %s:: and error::' % fl, not bad and not tyid,
+                           'foreign flavour paths: ' + ', '.join(sorted(bad)[:4]) if bad else ('observes the identity of a flavour type (differs between the siblings): ' + ', '.join(tyid) if tyid else 'closed')))
     return out
